@@ -73,6 +73,67 @@ def run_mc(v, pid, w, tier):
     log("design run EthTx_mc/%s: %d distinct states, %d transitions, all laws hold" % (cfg, r["distinct"], r["generated"]))
 
 
+def ethtx_binding(v, pid, w, focus, sz, seed, corrupt_fn=None, tag=""):
+    """Seeded histories of the real application validated by TraceEthTx.tla with the given law groups in Focus.
+    Adds to the verdict v (violations, coverage). corrupt_fn(pid, lines) -> (lines, lineno) drives the binding self-test."""
+    d = w.sub("traces" + tag)
+    vlib.vh(["ethtx", "-seed", str(seed), "-traces", str(sz["traces"]), "-blocks", str(sz["blocks"]), "-out", d])
+    lines = vlib.read_lines(os.path.join(d, "trace.ndjson"))
+    ntraces = sum(1 for ln in lines if '"ev":"Genesis"' in ln)
+    cov_total = {}
+    rejected_traces = 0
+    remaining = lines
+    rounds = 0
+    states = 0
+    while remaining and rounds < 4:
+        rounds += 1
+        dd = w.sub("val%s%d" % (tag, rounds))
+        with open(os.path.join(dd, "trace.ndjson"), "w") as f:
+            f.write("\n".join(remaining) + "\n")
+        os.link(os.path.join(d, "programs.json"), os.path.join(dd, "programs.json"))
+        r = validate_dir(dd, focus)
+        states += r["states"]
+        if r["err"] is None:
+            for k, n in r["coverage"].items():
+                cov_total[k] = cov_total.get(k, 0) + n
+            v.cov.setdefault("skipped_out_of_focus", []).extend(["%s/%s" % (g, dt) for _, g, dt in r["skipped"]][:20])
+            break
+        line, group, detail = r["err"]
+        a, b = vlib.trace_of_line(remaining, line)
+        bad = remaining[a:b + 1]
+        tid = json.loads(bad[0]).get("tid", "trace")
+        rp = vlib.save_replay(pid, tid, [(bad, "trace.ndjson"), (os.path.join(d, "programs.json"), "programs.json")],
+                              "law %s/%s broken at line %d of this trace (seed %d); re-check: bin/check %s --replay <this dir>"
+                              % (group, detail, line - a, seed, pid))
+        with open(os.path.join(rp, "tlc.out"), "w") as f:
+            f.write(r["out"][-20000:])
+        v.violation("%s/%s" % (group, detail), rp, "trace %s line %d: %s" % (tid, line - a, bad[line - 1 - a][:300]))
+        rejected_traces += 1
+        remaining = remaining[:a] + remaining[b + 1:]
+        if len(set(x[0] for x in v.violations)) < len(v.violations):
+            break  # the same law again: enough
+    v.cov["states"] += states
+    v.cov["transitions"] += states
+    v.cov["traces_validated_against_impl"] += ntraces - rejected_traces
+    v.cov["evaluations"] += ntraces
+    a, b = vlib.trace_of_line(lines, 1)
+    first = lines[a:b + 1]
+    if corrupt_fn is None:
+        return cov_total, first
+    # binding self-test on the first trace
+    bad, at = corrupt_fn(pid, first)
+    ds = w.sub("selftest" + tag)
+    with open(os.path.join(ds, "trace.ndjson"), "w") as f:
+        f.write("\n".join(bad) + "\n")
+    os.link(os.path.join(d, "programs.json"), os.path.join(ds, "programs.json"))
+    rs = validate_dir(ds, focus)
+    if rs["err"] is None:
+        raise Infra("binding self-test failed: a trace with a corrupted field (line %d) was accepted" % at)
+    log("binding self-test: corrupted line %d rejected with %s/%s" % (at, rs["err"][1], rs["err"][2]))
+    v.cov["selftest"] = "corrupted line %d of the first trace rejected by law %s/%s" % (at, rs["err"][1], rs["err"][2])
+    return cov_total, first
+
+
 @register("C04", "C05", "C06", "C13")
 def check_ethtx(pid, tier, seed, replay):
     v = Verdict(pid, tier, seed)
@@ -89,60 +150,7 @@ def check_ethtx(pid, tier, seed, replay):
             return 0
         vlib.build("vh")
         run_mc(v, pid, w, tier)
-        sz = SIZES[tier]
-        d = w.sub("traces")
-        vlib.vh(["ethtx", "-seed", str(seed), "-traces", str(sz["traces"]), "-blocks", str(sz["blocks"]), "-out", d])
-        lines = vlib.read_lines(os.path.join(d, "trace.ndjson"))
-        ntraces = sum(1 for ln in lines if '"ev":"Genesis"' in ln)
-        cov_total = {}
-        rejected_traces = 0
-        remaining = lines
-        rounds = 0
-        states = 0
-        while remaining and rounds < 4:
-            rounds += 1
-            dd = w.sub("val%d" % rounds)
-            with open(os.path.join(dd, "trace.ndjson"), "w") as f:
-                f.write("\n".join(remaining) + "\n")
-            os.link(os.path.join(d, "programs.json"), os.path.join(dd, "programs.json"))
-            r = validate_dir(dd, focus)
-            states += r["states"]
-            if r["err"] is None:
-                for k, n in r["coverage"].items():
-                    cov_total[k] = cov_total.get(k, 0) + n
-                v.cov.setdefault("skipped_out_of_focus", []).extend(["%s/%s" % (g, dt) for _, g, dt in r["skipped"]][:20])
-                break
-            line, group, detail = r["err"]
-            a, b = vlib.trace_of_line(remaining, line)
-            bad = remaining[a:b + 1]
-            tid = json.loads(bad[0]).get("tid", "trace")
-            rp = vlib.save_replay(pid, tid, [(bad, "trace.ndjson"), (os.path.join(d, "programs.json"), "programs.json")],
-                                  "law %s/%s broken at line %d of this trace (seed %d); re-check: bin/check %s --replay <this dir>"
-                                  % (group, detail, line - a, seed, pid))
-            with open(os.path.join(rp, "tlc.out"), "w") as f:
-                f.write(r["out"][-20000:])
-            v.violation("%s/%s" % (group, detail), rp, "trace %s line %d: %s" % (tid, line - a, bad[line - 1 - a][:300]))
-            rejected_traces += 1
-            remaining = remaining[:a] + remaining[b + 1:]
-            if len(set(x[0] for x in v.violations)) < len(v.violations):
-                break  # the same law again: enough
-        v.cov["states"] += states
-        v.cov["transitions"] += states
-        v.cov["traces_validated_against_impl"] = ntraces - rejected_traces if rounds < 6 else 0
-        v.cov["evaluations"] = ntraces
-        # binding self-test on the first trace
-        a, b = vlib.trace_of_line(lines, 1)
-        first = lines[a:b + 1]
-        bad, at = corrupt(pid, first)
-        ds = w.sub("selftest")
-        with open(os.path.join(ds, "trace.ndjson"), "w") as f:
-            f.write("\n".join(bad) + "\n")
-        os.link(os.path.join(d, "programs.json"), os.path.join(ds, "programs.json"))
-        rs = validate_dir(ds, focus)
-        if rs["err"] is None:
-            raise Infra("binding self-test failed: a trace with a corrupted field (line %d) was accepted" % at)
-        log("binding self-test: corrupted line %d rejected with %s/%s" % (at, rs["err"][1], rs["err"][2]))
-        v.cov["selftest"] = "corrupted line %d of the first trace rejected by law %s/%s" % (at, rs["err"][1], rs["err"][2])
+        cov_total, first = ethtx_binding(v, pid, w, focus, SIZES[tier], seed, corrupt_fn=corrupt)
         nontrivial = sum(n for k, n in cov_total.items() if k.startswith("eth.") and k not in ("eth.ante", "eth.dropped"))
         v.cov["distinct_nontrivial"] = nontrivial
         v.cov["classes"] = cov_total
